@@ -42,17 +42,16 @@ theorem state_in_range (pre : Fsm) (hs : pre.state < 3) (i : Int) (now : Nat) : 
   stepTimedAux_range _ _ 3 (by decide) 2 pre i now hs
 
 /-- one step of switch_state_mapping satisfies the property predicate, for every state, integer input and time -/
-theorem step (pre : Fsm) (hs : pre.state < 3) (i : Int) (now : Nat) (hn : now < u64) (hl : pre.lastTs ≤ now) :
+theorem step (pre : Fsm) (hs : pre.state < 3) (i : Int) (now : Nat) (hn : now < u64) :
     holdsC14Step (timeoutOf X.mappingTimeouts pre.state) pre (stepMapping pre i now) i now = true := by
-  have hd : diff64 now pre.lastTs = now - pre.lastTs := diff64_of_le _ _ hl hn
   unfold holdsC14Step
-  by_cases hw : timeoutOf X.mappingTimeouts pre.state = 0 ∨ now - pre.lastTs ≤ timeoutOf X.mappingTimeouts pre.state
-  · have e := stepTimed_within X.mappingTable X.mappingTimeouts pre i now (by rw [hd]; exact hw)
+  by_cases hw : timeoutOf X.mappingTimeouts pre.state = 0 ∨ diff64 now pre.lastTs ≤ timeoutOf X.mappingTimeouts pre.state
+  · have e := stepTimed_within X.mappingTable X.mappingTimeouts pre i now hw
     unfold stepMapping
     rw [e]
     simp only [if_pos hw, lookup_spec pre.state hs i, decide_true, Bool.and_self]
   · have hx : timeoutOf X.mappingTimeouts pre.state ≠ 0 ∧ diff64 now pre.lastTs > timeoutOf X.mappingTimeouts pre.state := by
-      rw [hd]; constructor
+      constructor
       · intro h0; exact hw (Or.inl h0)
       · omega
     have e := stepTimed_expired X.mappingTable X.mappingTimeouts pre i now hn hx
@@ -65,17 +64,16 @@ theorem step (pre : Fsm) (hs : pre.state < 3) (i : Int) (now : Nat) (hn : now < 
 
 /-- the same when the clock moves while the call runs (`stepMappingR`: `now1` read on entry, `now2` on the second level after
     an expiry): the decision is the one for the time of entry, whatever the second reading (the stamp: `stamp_at_entry`) -/
-theorem step_moving_clock (pre : Fsm) (hs : pre.state < 3) (i : Int) (now1 now2 : Nat) (hn : now1 < u64) (hl : pre.lastTs ≤ now1) :
+theorem step_moving_clock (pre : Fsm) (hs : pre.state < 3) (i : Int) (now1 now2 : Nat) (hn : now1 < u64) :
     holdsC14Step (timeoutOf X.mappingTimeouts pre.state) pre { state := (stepMappingR pre i now1 now2).state, lastTs := now1 } i now1 = true := by
-  have hd : diff64 now1 pre.lastTs = now1 - pre.lastTs := diff64_of_le _ _ hl hn
   unfold holdsC14Step
-  by_cases hw : timeoutOf X.mappingTimeouts pre.state = 0 ∨ now1 - pre.lastTs ≤ timeoutOf X.mappingTimeouts pre.state
-  · have e := stepTimedR_within X.mappingTable X.mappingTimeouts pre i now1 now2 (by rw [hd]; exact hw)
+  by_cases hw : timeoutOf X.mappingTimeouts pre.state = 0 ∨ diff64 now1 pre.lastTs ≤ timeoutOf X.mappingTimeouts pre.state
+  · have e := stepTimedR_within X.mappingTable X.mappingTimeouts pre i now1 now2 hw
     unfold stepMappingR
     rw [e]
     simp only [if_pos hw, lookup_spec pre.state hs i, decide_true, Bool.and_self]
   · have hx : timeoutOf X.mappingTimeouts pre.state ≠ 0 ∧ diff64 now1 pre.lastTs > timeoutOf X.mappingTimeouts pre.state := by
-      rw [hd]; constructor
+      constructor
       · intro h0; exact hw (Or.inl h0)
       · omega
     unfold stepMappingR
@@ -85,12 +83,11 @@ theorem step_moving_clock (pre : Fsm) (hs : pre.state < 3) (i : Int) (now1 now2 
       exact key _ hs
     simp only [if_neg hw, h0, decide_true, Bool.true_or, Bool.and_self]
 
-theorem stamp_at_entry (pre : Fsm) (i : Int) (now1 now2 : Nat) (hn : now1 < u64) (hl : pre.lastTs ≤ now1)
-    (hw : timeoutOf X.mappingTimeouts pre.state = 0 ∨ now1 - pre.lastTs ≤ timeoutOf X.mappingTimeouts pre.state) :
+theorem stamp_at_entry (pre : Fsm) (i : Int) (now1 now2 : Nat) (hn : now1 < u64)
+    (hw : timeoutOf X.mappingTimeouts pre.state = 0 ∨ diff64 now1 pre.lastTs ≤ timeoutOf X.mappingTimeouts pre.state) :
     (stepMappingR pre i now1 now2).lastTs = now1 := by
-  have hd : diff64 now1 pre.lastTs = now1 - pre.lastTs := diff64_of_le _ _ hl hn
   unfold stepMappingR
-  rw [stepTimedR_within X.mappingTable X.mappingTimeouts pre i now1 now2 (by rw [hd]; exact hw)]
+  rw [stepTimedR_within X.mappingTable X.mappingTimeouts pre i now1 now2 hw]
 
 theorem moving_same (pre : Fsm) (i : Int) (now : Nat) : stepMappingR pre i now now = stepMapping pre i now :=
   stepTimedR_same _ _ pre i now
@@ -110,21 +107,23 @@ def stepsOk (a : Fsm) : List (Int × Nat) → Bool
   | (i, now) :: rest =>
     holdsC14Step (timeoutOf X.mappingTimeouts a.state) a (stepMapping a i now) i now && stepsOk (stepMapping a i now) rest
 
-def monotoneFrom (t : Nat) : List (Int × Nat) → Prop
+/-- all time stamps are 64-bit values; nothing else is assumed about them: the elapsed time is taken modulo 2^64, as the C code
+    takes it, so a seconds counter that wraps — or a clock that steps backwards — is covered -/
+def timesOk : List (Int × Nat) → Prop
   | [] => True
-  | (_, now) :: rest => t ≤ now ∧ now < u64 ∧ monotoneFrom now rest
+  | (_, now) :: rest => now < u64 ∧ timesOk rest
 
-theorem history (a : Fsm) (hs : a.state < 3) (evs : List (Int × Nat)) (hm : monotoneFrom a.lastTs evs) :
+/-- every step of every event/time history meets the predicate -/
+theorem history (a : Fsm) (hs : a.state < 3) (evs : List (Int × Nat)) (hm : timesOk evs) :
     stepsOk a evs = true ∧ (run a evs).state < 3 := by
   induction evs generalizing a with
   | nil => exact ⟨rfl, hs⟩
-  | cons e rest ih =>
-    obtain ⟨i, now⟩ := e
-    obtain ⟨h1, h2, h3⟩ := hm
+  | cons ev rest ih =>
+    obtain ⟨i, now⟩ := ev
+    obtain ⟨h2, h3⟩ := hm
     have hs' := state_in_range a hs i now
-    have hl' := last_ts a i now
-    have := ih (stepMapping a i now) hs' (by rw [hl']; exact h3)
-    simp only [stepsOk, run, step a hs i now h2 h1, this.1, Bool.and_self, true_and]
+    have := ih (stepMapping a i now) hs' h3
+    simp only [stepsOk, run, step a hs i now h2, this.1, Bool.and_self, true_and]
     exact this.2
 
 /-- a time-out input always ends the session, whatever the time stamps -/
